@@ -143,7 +143,7 @@ def leaf(draw, dim, ctx, hint, force=None):
             return {"t": kind, "var": var, "o": oP, "c1": c1P,
                     "c2": shifted([o[0] + d2[0], o[1] + d2[1]])}
         # fixed polygons (ShapelyPolygon cannot depend on parameters)
-        shape = draw(st.sampled_from(["L", "ngon", "holed"]))
+        shape = draw(st.sampled_from(["L", "ngon", "holed", "star"]))
         rot = 0.0 if ctx.lattice else draw(num(0, 6.283))
         h = s / 2
 
@@ -154,6 +154,14 @@ def leaf(draw, dim, ctx, hint, force=None):
             ring = [(-h, -h), (h, -h), (h, 0), (0, 0), (0, h), (-h, h)]
             if draw(st.booleans()):
                 ring = ring[::-1]
+            return {"t": "poly", "var": var, "verts": place(ring), "hole": None}
+        if shape == "star":
+            # irregular star-shaped polygon (radii between 0.45h and h): its vertex triangulation has
+            # triangles that the polygon covers only partly
+            m = draw(st.integers(6, 10))
+            a0 = draw(num(0, 6.283))
+            rad = [draw(num(0.45, 1.0)) for _ in range(m)]
+            ring = [(h * rad[i] * math.cos(a0 + 2 * math.pi * i / m), h * rad[i] * math.sin(a0 + 2 * math.pi * i / m)) for i in range(m)]
             return {"t": "poly", "var": var, "verts": place(ring), "hole": None}
         if shape == "ngon":
             m = draw(st.integers(3, 7))
